@@ -675,11 +675,11 @@ Proof.
   - intros c Hc. rewrite app_nth1 by lia. apply F; auto.
 Qed.
 
-Lemma do_cab_inv mws n0 h0 s j d sol s' : hinv n0 h0 s -> In d (derived s) ->
-  do_cab mws s j d sol = Ok s' -> hinv n0 h0 s'.
+Lemma do_cab_inv mws n0 h0 s d n formula consts Aobs bobs sol s' : hinv n0 h0 s -> In d (derived s) ->
+  do_cab mws s d n formula consts Aobs bobs sol = Ok s' -> hinv n0 h0 s'.
 Proof.
-  intros (L & D & F) Hd. unfold do_cab. destruct sol as [v|]; [|discriminate].
-  destruct (rescale _) as [r'|e]; simpl; [|discriminate].
+  intros (L & D & F) Hd. unfold do_cab.
+  destruct (cab_apply _ n formula mws _ consts) as [r'|e]; simpl; [|discriminate].
   intros H; inversion H; subst; clear H.
   assert (Hc : (n0 <= hcell d < length (hp s))%nat) by (rewrite Forall_forall in D; apply D; auto).
   unfold hinv; simpl. rewrite upd_length. split; auto. split; auto.
@@ -702,7 +702,7 @@ Qed.
 
 Lemma hstep_inv mws members n0 h0 s o s' : hinv n0 h0 s -> hstep mws members s o = Ok s' -> hinv n0 h0 s'.
 Proof.
-  intros I. destruct o as [lo k b|k r x|j b|j b|j r x|j k|j k|j sol|lo n b]; simpl.
+  intros I. destruct o as [lo k b|k r x|j b|j b|j r x|j k|j k|j n formula consts Aobs bobs sol|lo n b]; simpl.
   - destruct (nth_error (skipn lo members) k); [|discriminate]. apply do_copy_inv; auto.
   - destruct (nth_error members k); [|discriminate]. apply do_backwards_inv; auto.
   - destruct (nth_error (derived s) j) as [d|] eqn:E; [|discriminate].
@@ -1002,16 +1002,31 @@ Proof. revert i; induction l as [|h t IH]; intros [|i] H; simpl in *; try lia; a
 
 (* whatever the linear solver returns, correct_atomic_balance ends with _rescale: the corrected reaction
    has reactant coefficient -1, so it converts exactly X of its reactant (consumed_lemma) *)
-Lemma cab_normalised_lemma mws s j d sol s' : do_cab mws s j d sol = Ok s' ->
+Lemma cab_apply_normalised solver n formula mws r consts r' :
+  cab_apply solver n formula mws r consts = Ok r' ->
+  normalised r' /\ ridx r' = ridx r /\ X r' = X r /\ wt r' = wt r /\ phases r' = phases r /\
+  length (st r') = length (st r).
+Proof.
+  unfold cab_apply. destruct (cab_solve _ _ _ _ _ _) as [v|e]; simpl; [|discriminate].
+  set (filled := cab_fill _ _ _ _ _).
+  assert (LF : length filled = length (st r)).
+  { unfold filled. generalize 0%nat. generalize (st r). clear.
+    induction v0 as [|x t IH]; intros k; simpl; auto. }
+  unfold rescale. simpl. destruct (qzerob _) eqn:Z; [discriminate|].
+  intros H; inversion H; subst; clear H. simpl. repeat split; auto.
+  - unfold normalised. simpl. rewrite nthq_vdivs. apply qzerob_false in Z.
+    set (a := nthq filled (ridx r)) in *. field. intros E. apply Z. rewrite E. ring.
+  - rewrite vdivs_length. auto.
+Qed.
+
+Lemma cab_normalised_lemma mws s d n formula consts Aobs bobs sol s' :
+  do_cab mws s d n formula consts Aobs bobs sol = Ok s' ->
   (hcell d < length (hp s))%nat ->
   normalised (as_rxn (hp s') d) /\ derived s' = derived s.
 Proof.
-  unfold do_cab. destruct sol as [v|]; [|discriminate].
-  destruct (rescale _) as [r'|e] eqn:R; simpl; [|discriminate].
+  unfold do_cab. destruct (cab_apply _ _ _ _ _ _) as [r'|e] eqn:R; simpl; [|discriminate].
   intros H Hc; inversion H; subst; clear H. simpl. split; auto.
-  unfold rescale in R. simpl in R.
-  destruct (qzerob _) eqn:Z; [discriminate|]. inversion R; subst; clear R.
-  unfold normalised, as_rxn, hget. simpl. rewrite nth_upd_same_gen by auto.
-  rewrite nthq_vdivs. apply qzerob_false in Z. unfold hget in Z.
-  set (a := nthq _ (h_ridx d)) in *. field. intros E. apply Z. rewrite E. ring.
+  destruct (cab_apply_normalised _ _ _ _ _ _ _ R) as (Nr & Ri & _).
+  unfold normalised, as_rxn, hget in *. simpl in *. rewrite nth_upd_same_gen by auto.
+  rewrite <- Ri. exact Nr.
 Qed.
